@@ -365,7 +365,9 @@ def genDocM (size : Nat) : G Doc := do
       pure (bs.take pos ++ b1 ++ bs.drop pos ++ b2))
   let fin ← chance 70
   let tm ← below 3
-  return { blocks := bs2, finalNewline := fin, tabMode := tm }
+  let tq ← below 3
+  let tl ← below 3
+  return { blocks := bs2, finalNewline := fin, tabMode := tm, tabQuote := tq, tabQuoteD := tq, tabList := tl }
 
 def genOnce (seed size : Nat) : Doc :=
   (genDocM size |>.run { s := UInt64.ofNat (seed * 2654435761 + size) }).1
